@@ -60,7 +60,8 @@ Proof.
     assert (Hxn : X0 n = Some x) by (rewrite <- (li_x _ _ _ _ _ _ _ I); symmetry; exact T1).
     split; [|split].
     + constructor.
-      * constructor; [exact S2|]. intros m Hm. apply (wfd_x _ _ _ _ _ T4). exact Hm.
+      * constructor; [exact S2|intros m Hm; apply (wfd_x _ _ _ _ _ T4); exact Hm|].
+        intros m y Lm. rewrite HB. destruct (m =? n); [discriminate|]. apply (wfd_live _ _ _ _ _ T4 m y Lm).
       * intros m. rewrite HX, T3. apply (li_x _ _ _ _ _ _ _ I).
       * intros m Hm. rewrite HB. destruct (m =? n) eqn:Em; [apply Z.eqb_eq in Em; subst; congruence|]. rewrite T2. apply (li_b _ _ _ _ _ _ _ I). exact Hm.
       * intros m Hm. destruct (m =? n) eqn:Em.
